@@ -136,7 +136,7 @@ class OnDiskBlock:
 
             if count:
                 offsets.append(base_offset + cursor)
-                base_offset += cursor
+            base_offset += cursor
             tx_count -= count
             if tx_count == 0:
                 return offsets
